@@ -337,6 +337,9 @@ func interpCases(c *Ctx, n int, tweak func(cfg *GenCfg, i int), post func(s *Sce
 		case "zeroShare":
 			prog = g.zeroShareProgram()
 			c.count("directed:zeroShare")
+		case "saveAllDebt":
+			prog = g.saveAllDebtProgram()
+			c.count("directed:saveAllDebt")
 		case "originOtherAsset":
 			prog = g.originOtherAssetProgram(cfg.OneSend)
 			c.count("directed:originOtherAsset")
@@ -509,6 +512,10 @@ func init() {
 				cfg.Directed = "originOtherAsset"
 			case 3:
 				cfg.Directed = "zeroShare"
+			case 9:
+				cfg.Directed = "overdraftOrigin"
+			case 15:
+				cfg.Directed = "saveAllDebt"
 			}
 		}, nil)
 	}
@@ -635,6 +642,9 @@ func init() {
 			}
 			if i%9 == 4 {
 				cfg.Directed = "varReuseSaves"
+			}
+			if i%18 == 7 {
+				cfg.Directed = "saveAllDebt"
 			}
 		}, nil)
 	}
